@@ -5,6 +5,7 @@ CONSTANTS
   PerRound = 2
   Ahead = 5
   Confirm = 3
+  FetchOK = FALSE
   MaxUnnotarized = 2
   GenLen = 16
   Block <- MCBlock
